@@ -42,7 +42,7 @@ MAX_FNS = {'np.maximum', 'np.max', 'max', 'np.nanmax', 'np.fmax', 'np.amax'}
 
 def run(ctx: Ctx):
   m = model(ctx)
-  for r in (r1, r2, r3, r4, r5, r6, r7, r10):
+  for r in (r1, r2, r3, r4, r5, r6, r7, r10, r11, r12):
     ctx.guard(r, m)
   ctx.include('R-C01-8', 'merge leaves its operand intact and shares no'
               ' mutable state with it (R-C11-1, R-C11-2): a shard state that'
@@ -704,11 +704,140 @@ def r10(ctx: Ctx, m):
   ctx.floor(rule, 1, n)
 
 
+def r11(ctx: Ctx, m):
+  rule = 'R-C01-11'
+  ctx.rule(rule, 'configuration reaches the computation: when a method of an'
+           ' accumulator class calls a module-level helper (or constructs a'
+           ' helper class) that has an OPTIONAL parameter named like one of the'
+           ' class\'s own configuration fields (p or _p), the call passes that'
+           ' parameter — otherwise the helper falls back to a per-batch'
+           ' default (e.g. a vocabulary deduced from the batch) and an'
+           ' example\'s value depends on its batch mates')
+  repo = m.repo
+  n = 0
+  for ci in m.classes:
+    fields = {f.name for c in repo.mro(ci) for f in c.fields}
+    if not fields:
+      continue
+    for meth in ci.methods.values():
+      for c in ast.walk(meth.node):
+        if not isinstance(c, ast.Call):
+          continue
+        callee = m.eff.resolve(c, meth)
+        opt: set[str] = set()
+        pos: list[str] = []
+        if callee is not None and callee.cls is None:
+          a = callee.node.args
+          pos = [x.arg for x in a.posonlyargs + a.args]
+          opt = set(pos[len(pos) - len(a.defaults):]) | {
+              x.arg for x, d in zip(a.kwonlyargs, a.kw_defaults) if d is not None}
+          name = callee.qualname
+        else:
+          k = repo.resolve_class(ci.module, unparse(c.func))
+          if k is None or k is ci:
+            continue
+          kf = [f for c_ in reversed(repo.mro(k)) if c_.is_dataclass for f in c_.fields if f.init]
+          if not kf:
+            continue
+          pos = [f.name for f in kf if not f.kw_only]
+          opt = {f.name for f in kf if f.default is not None or f.default_factory is not None}
+          name = k.name
+        if any(kw.arg is None for kw in c.keywords) or any(isinstance(a_, ast.Starred) for a_ in c.args):
+          continue
+        passed = {kw.arg for kw in c.keywords if kw.arg} | set(pos[:len(c.args)])
+        for p_ in sorted(opt):
+          if p_ in fields or ('_' + p_) in fields:
+            n += 1
+            if p_ in passed:
+              ctx.ok(rule, meth, f'{ci.name}.{meth.name}: {name}(..., {p_}=...) forwarded', c)
+            else:
+              ctx.fail(rule, meth, f'{ci.name}.{meth.name}: {name}(..., {p_}=self.{p_})',
+                       f'{ci.name} is configured with `{p_}` but {ci.name}.{meth.name}'
+                       f' calls {name}() without it: the helper uses its default'
+                       ' (deduced per call), so the configured value is ignored and'
+                       ' the result of an example depends on the batch it is in',
+                       node=c)
+  ctx.floor(rule, 6, n)
+
+
+def r12(ctx: Ctx, m):
+  rule = 'R-C01-12'
+  ctx.rule(rule, 'count bookkeeping on every path: a self-statistic that an'
+           ' accumulation helper updates unconditionally at the end of its'
+           ' body (`self.f += ...` at statement level) is updated on EVERY'
+           ' normal path through it — an early return that depends on the'
+           ' accumulator\'s own state skips the update for some batchings only'
+           ' (early returns that test the arguments alone are exempt)')
+  n = 0
+  for ci in m.classes:
+    for meth in ci.methods.values():
+      if meth.name in MERGE_NAMES or meth.name in ('result', '__init__', '__post_init__'):
+        continue
+      top_augs = [x for x in meth.node.body if isinstance(x, ast.AugAssign) and is_self_attr(x.target)]
+      rets = [x for x in walk_no_nested(meth.node) if isinstance(x, ast.Return)]
+      if not top_augs:
+        continue
+      n += 1
+      if not rets:
+        ctx.ok(rule, meth, f'{ci.name}.{meth.name}: single exit', meth.node)
+        continue
+      g = cfgm.cfg_of(meth.node)
+      pm = parent_map(meth.node)
+
+      def arg_only_return(nd):
+        # exit edges of returns guarded by a test that does not mention self
+        return False
+
+      bad = None
+      for a in top_augs:
+        anodes = [nd for nd in g.nodes if nd.ast is a]
+
+        def edge_ok(p_, q_, lab):
+          if lab in ('exc', 'close'):
+            return False
+          if p_.kind == 'cond' and not any(
+              isinstance(y, ast.Name) and y.id == 'self' for y in ast.walk(p_.ast)):
+            # branch decided by the arguments alone: follow only the edge that
+            # does not lead straight into a return
+            tgt_ret = q_.kind == 'stmt' and isinstance(q_.ast, ast.Return)
+            if tgt_ret:
+              return False
+          return True
+
+        w = g.must_pass(g.entry, [g.exit_ret], lambda nd: nd in anodes, edge_ok)
+        if w is not None:
+          bad = (a, w)
+      if bad:
+        a, w = bad
+        ctx.fail(rule, meth, f'{ci.name}.{meth.name}: `{unparse(a)}` on every path',
+                 f'{ci.name}.{meth.name} can return without executing `{unparse(a)}`'
+                 ' on a path chosen by the accumulator\'s own state: the'
+                 ' statistic misses the inputs of some calls, so feeding the'
+                 ' same data in other batch sizes gives another result',
+                 node=a, witness=w[-8:])
+      else:
+        ctx.ok(rule, meth, f'{ci.name}.{meth.name}: end-of-body updates on every path', meth.node)
+  ctx.floor(rule, 3, n)
+
+
 from mlmverif.selfcheck import B, OK  # noqa: E402
 
 _R = 'aggregates/rolling_stats.py'
 _C = 'aggregates/classification.py'
 VARIANTS = [
+    B('reservoir-early-return-skips-count', _R,
+      '    self._reservoir.extend(samples[:len_n])\n    i = len_n - 1',
+      '    self._reservoir.extend(samples[:len_n])\n    if len(self._reservoir) < self.max_size:\n      return\n    i = len_n - 1',
+      'R-C01-12'),
+    OK('reservoir-early-return-on-empty-input', _R,
+       '    len_n = min(self.max_size - len(self._reservoir), n)\n    self._reservoir.extend(samples[:len_n])',
+       '    if not n:\n      return\n    len_n = min(self.max_size - len(self._reservoir), n)\n    self._reservoir.extend(samples[:len_n])'),
+    B('samplewise-vocab-not-forwarded', _C,
+      '          vocab=self.vocab,\n          multioutput=(self.input_type == InputType.MULTICLASS_MULTIOUTPUT),',
+      '          multioutput=(self.input_type == InputType.MULTICLASS_MULTIOUTPUT),', 'R-C01-11'),
+    B('macro-average-not-forwarded', _C,
+      '          multioutput=(self._input_type == InputType.MULTICLASS_MULTIOUTPUT),\n          average=self._average,',
+      '          multioutput=(self._input_type == InputType.MULTICLASS_MULTIOUTPUT),', 'R-C01-11'),
     B('ngram-dedup-per-batch', 'aggregates/text.py',
       "    ngrams_counter = collections.Counter()\n    for text in texts:\n      # Remove non-alphabetical and non-space characters\n      words = re.sub(r'[^a-zA-Z ]+', '', text).lower().split()\n      if self.n <= len(words):\n        ngrams = []\n",
       "    ngrams_counter = collections.Counter()\n    ngrams = []\n    for text in texts:\n      # Remove non-alphabetical and non-space characters\n      words = re.sub(r'[^a-zA-Z ]+', '', text).lower().split()\n      if self.n <= len(words):\n",
